@@ -467,3 +467,29 @@ Proof.
   destruct (m =? "full")%string; [discriminate|].
   destruct (m =? "none")%string; [discriminate|]. reflexivity.
 Qed.
+
+(* ------------------------------------------------------------------ TrimTree only on trees *)
+Lemma in_formats_incl : forall a b fmt, incl_b a b = true -> in_formats fmt a = true -> in_formats fmt b = true.
+Proof.
+  intros a b fmt Hi Ha. unfold incl_b in Hi. rewrite forallb_forall in Hi.
+  unfold in_formats in Ha. apply existsb_exists in Ha. destruct Ha as (x & Hx & He).
+  apply String.eqb_eq in He. subst x. apply Hi. exact Hx.
+Qed.
+
+Lemma trim_site_no_panic : forall buildf sitef, incl_b sitef buildf = true ->
+  forall ct fmt dropped two, is_panic (trim_site_outcome buildf sitef ct fmt dropped two) = false.
+Proof.
+  intros buildf sitef Hi ct fmt dropped two. unfold trim_site_outcome, built_as_tree.
+  destruct ct; [|reflexivity]. cbn [andb].
+  destruct (in_formats fmt sitef) eqn:Es; [|reflexivity].
+  rewrite (in_formats_incl _ _ _ Hi Es). destruct dropped; reflexivity.
+Qed.
+
+(* and the inclusion is necessary: a format honoured by the trimming guard only does panic *)
+Lemma trim_site_panics_outside : forall buildf sitef fmt,
+  in_formats fmt sitef = true -> in_formats fmt buildf = false ->
+  is_panic (trim_site_outcome buildf sitef true fmt true true) = true.
+Proof.
+  intros buildf sitef fmt Hs Hb. unfold trim_site_outcome, built_as_tree. cbn [andb].
+  rewrite Hs, Hb. reflexivity.
+Qed.
